@@ -40,8 +40,12 @@ def _run(Qs, Ts, case, n_jobs, chunk=0, n_nearest=None):
     numba.set_parallel_chunksize(chunk)
     try:
         Qc, Tc = [q.copy() for q in Qs], [t.copy() for t in Ts]
+        if case.get("as_torch"):
+            Qc, Tc = [torch.from_numpy(q) for q in Qc], [torch.from_numpy(t) for t in Tc]      # both containers are documented to accept tensors
         out = tomtom(Qc, Tc, n_nearest=n_nearest, n_score_bins=case.get("n_score_bins", 100),
                      n_target_bins=case.get("n_target_bins"), reverse_complement=case["rc"], n_jobs=n_jobs)
+        if case.get("as_torch"):
+            Qc, Tc = [q.numpy() for q in Qc], [t.numpy() for t in Tc]
         if not (len(Qc) == len(Qs) and len(Tc) == len(Ts) and all(numpy.array_equal(a, b) and a.dtype == b.dtype for a, b in zip(Qc + Tc, list(Qs) + list(Ts)))):
             raise Violation("tomtom-inputs-modified", "the query / target arrays (or lists) handed to tomtom were changed")
         return out
@@ -236,6 +240,7 @@ def schedule_strategy(draw):
         # query lists are often heterogeneous (one-hot int8 seqlets next to float PWMs): a query's result may not depend on its neighbours' dtype
         case["query_dtypes"] = [draw(st.sampled_from(["int8", "float32", "float64", "float64"])) for _ in range(nQ)]
     case["strand_history"] = draw(st.integers(0, 2)) == 0
+    case["as_torch"] = draw(st.integers(0, 3)) == 0
     return case
 
 
